@@ -1,9 +1,11 @@
 mod codec;
+mod codec6lo;
 mod core;
 mod device;
 mod dhcpdns;
 mod mk;
 mod runner;
+mod scen_adv;
 mod scen_dgram;
 mod scen_peer;
 mod scen_tcp;
@@ -44,6 +46,13 @@ fn dgram_frag(t: &mut Tape, p: Props, thorough: bool, trace: bool) -> Outcome {
 }
 fn dgram_frag_sloppy(t: &mut Tape, p: Props, thorough: bool, trace: bool) -> Outcome {
     scen_dgram::run(t, p, &scen_dgram::Params { thorough, frag_heavy: true, exact: false }, trace)
+}
+
+fn adv_any(t: &mut Tape, p: Props, thorough: bool, trace: bool) -> Outcome {
+    scen_adv::run(t, p, thorough, trace, None)
+}
+fn adv_154(t: &mut Tape, p: Props, thorough: bool, trace: bool) -> Outcome {
+    scen_adv::run(t, p, thorough, trace, Some(codec::Medium::Ieee802154))
 }
 
 const REAL: &str = "smoltcp::iface::Interface, SocketSet, all socket types used by the scenario, wire, storage, iface::{neighbor,route,fragmentation} - built from /repo's working tree";
@@ -93,6 +102,8 @@ fn defs() -> &'static [CheckDef] {
                 id: "C03",
                 props: Props::of(&["C03"]),
                 scens: vec![
+                    Scen { name: "adversary-any-medium", weight: 6, run: adv_any },
+                    Scen { name: "adversary-802154", weight: 2, run: adv_154 },
                     Scen { name: "tcp-peer-receiver", weight: 2, run: peer_receiver },
                     Scen { name: "tcp-peer-sender", weight: 1, run: peer_sender },
                     Scen { name: "tcp-peer-states", weight: 2, run: peer_states },
